@@ -9,6 +9,7 @@ import Req.Lemmas.C02Chunked
 import Req.Lemmas.C02H3
 import Req.Lemmas.C02Hex
 import Req.Lemmas.C02Trailer
+import Req.Lemmas.C02Cross
 /-!
 C02 — response fidelity: property theorems.
 
@@ -562,5 +563,37 @@ example :
 
 example : BodyFrameOK ⟨[33, 1], 33, [9]⟩ := by
   refine ⟨fun R => by simp [decHdr, decVarint, decVarintTail], Or.inr (by simp [skippable])⟩
+
+/-! ## Part E — the same header over the three protocols -/
+
+/-- **cross_protocol_fields.** One response head — a status and a list `fs` of ordinary
+fields (lower-case token names as HTTP/2 and HTTP/3 carry them; not pseudo, connection-
+specific, `te`, `content-length` or `trailer`, which have their own handling) — written the
+HTTP/1.1 way (`name ": " value CRLF` … CRLF, followed by anything) and read by the field-block
+reader, delivered as an HTTP/2 HEADERS field list to `handleResponse`, and as an HTTP/3 field
+list to `parseHeaders`/`updateResponseFromHeaders`: the caller's header is the same in all
+three — every field under its canonical name, with its value, in the origin's order — and
+HTTP/2 and HTTP/3 report the origin's status. (Body and trailers: the per-protocol exactness
+theorems above all conclude "= the origin's bytes / fields".) -/
+theorem cross_protocol_fields (fs : Fields) (hfs : ∀ kv ∈ fs, PlainField kv ∧ ValueOK kv.2)
+    (sv : Bytes) (code : Nat) (hne : sv ≠ []) (hsv : natOfDigits sv = some code)
+    (hval : validFieldValue sv = true) (R : Bytes) :
+    let view := fs.map canonKV
+    parseFieldBlock ((blockWire (fs.map toWField) ++ R).length + 1) (blockWire (fs.map toWField) ++ R) =
+        some (view, (blockWire (fs.map toWField)).length) ∧
+    h2StatusValue ((kStatus, sv) :: fs) = some sv ∧ h2Fields ((kStatus, sv) :: fs) = view ∧
+    h3ParseHead ((kStatus, sv) :: fs) =
+      some { status := code, fields := view, contentLength := none, trailerKeys := [] } := by
+  have hplain : ∀ kv ∈ fs, PlainField kv := fun kv h => (hfs kv h).1
+  have hw : ∀ f ∈ fs.map toWField, f.OK := by
+    intro f hf
+    simp only [List.mem_map] at hf
+    obtain ⟨kv, hkv, rfl⟩ := hf
+    exact toWField_ok kv (hfs kv hkv).1 (hfs kv hkv).2
+  obtain ⟨h2a, h2b, _⟩ := h2_fields_plain fs hplain sv
+  refine ⟨?_, h2a, h2b, h3_head_plain fs hplain sv code hne hsv hval⟩
+  have := field_block_roundtrip (fs.map toWField) hw R
+  rw [fieldsOf_toWField] at this
+  exact this
 
 end Req.Props.C02
